@@ -68,7 +68,13 @@ class SqliteImpl(SqlImpl):
 
     @classmethod
     def fix_fn_types(cls, fn: ColFn, val: sqa.ColumnElement, *args: sqa.ColumnElement) -> sqa.ColumnElement:
-        if fn.op in (ops.horizontal_min, ops.horizontal_max, ops.mean, ops.min, ops.max) and fn.dtype().is_float():
+        # SQLite returns the value of the winning argument with its own type, e.g. an
+        # integer out of a float-typed `coalesce(float_col, int_col)`.
+        if (
+            fn.op
+            in (ops.horizontal_min, ops.horizontal_max, ops.mean, ops.min, ops.max, ops.coalesce, ops.fill_null)
+            and fn.dtype().is_float()
+        ):
             return sqa.cast(val, sqa.Double)
         return val
 
